@@ -428,7 +428,18 @@ def run(ctx: Ctx) -> None:
         raise AnalysisError("EXTENSION_OPS_WITH_SIDE_EFFECTS vanished")
     txt = ast.unparse(lst)
     need = {"RESULT_EXTENSION.operations": "result reports", "'panic'": "panic", "'exit'": "exit", "'StateResult'": "state result",
-            "'QAlloc'": "qubit allocation", "'QFree'": "qubit free", "'MeasureFree'": "measurement"}
+            "'QAlloc'": "qubit allocation", "'TryQAlloc'": "conditional qubit allocation (maybe_qubit)", "'QFree'": "qubit free", "'MeasureFree'": "measurement"}
+    # every operation of the quantum extension that the standard library binds (`quantum_op("X")`) and whose name says that it
+    # allocates or releases a qubit must be in the list: the set is read from the std sources, not frozen here
+    bound_ops = set()
+    for m_ in idx.modules.values():
+        if m_.name.startswith("guppylang.std.quantum"):
+            for c_ in ast.walk(m_.tree):
+                if isinstance(c_, ast.Call) and call_name(c_) == "quantum_op" and c_.args and isinstance(c_.args[0], ast.Constant) and isinstance(c_.args[0].value, str) \
+                        and not any(k_.arg == "ext" for k_ in c_.keywords):
+                    bound_ops.add(c_.args[0].value)
+    for op_ in sorted(o for o in bound_ops if "Alloc" in o or "Free" in o):
+        need.setdefault(f"'{op_}'", f"qubit allocation / release ({op_})")
     missing = [v for k, v in need.items() if k not in txt]
     ctx.check(not missing, "R-C05.2", f"{cc.name}.EXTENSION_OPS_WITH_SIDE_EFFECTS", cc.rel, {"missing": missing},
               "an operation kind with an observable effect is not ordered relative to the others")
@@ -565,6 +576,23 @@ def run(ctx: Ctx) -> None:
                   "the parts of this node are compiled in another order than Python evaluates them (e.g. arguments before the callee): "
                   "side effects in them run out of order")
     ctx.floor("R-C05.4", "compilers with several evaluated fields", n_checked, 2)
+    # nodes built by a custom checker from the ARGUMENTS of a library function (`exit(msg, signal, *args)` -> PanicExpr): the
+    # node's evaluated fields must be listed in the order of the function's parameters -- that is the order in which the caller
+    # wrote the operands, and the order every traversal (the compiler above, the linearity and unitary passes) follows
+    plat = idx.modules.get("guppylang.std.platform")
+    exit_def = next((n for n in (plat.tree.body if plat else []) if isinstance(n, ast.FunctionDef) and n.name == "exit"), None)
+    pe_fields = fields_of.get("PanicExpr")
+    if exit_def is None or not pe_fields:
+        ctx.undecided("R-C05.4", "guppylang_internals.nodes.PanicExpr#fields-in-source-order", "guppylang-internals/src/guppylang_internals/nodes.py", "std `exit` or PanicExpr._fields not found")
+    else:
+        params_ = [a_.arg for a_ in exit_def.args.args] + ([exit_def.args.vararg.arg] if exit_def.args.vararg else [])
+        alias = {"args": "values"}
+        want_ = [alias.get(x, x) for x in params_]
+        got_ = [x for x in pe_fields if x in want_]
+        ctx.check(got_ == want_, "R-C05.4", "guppylang_internals.nodes.PanicExpr#fields-in-source-order", "guppylang-internals/src/guppylang_internals/nodes.py",
+                  {"parameters_of_exit": params_, "evaluated_fields_of_PanicExpr": got_},
+                  "the operands of `exit(msg, signal, ...)` are stored (and therefore traversed and compiled) in another order than they are written: "
+                  "a result report in the message and a panic in the signal expression happen in the wrong order")
 
     # ------------------------------------------------------------ R-C05.6 checker desugarings that reorder operands
     from . import c05_order
